@@ -83,7 +83,7 @@ def run_pmm(ctx, prop):
 
     # ---- leg G: replay the TLC-enumerated cases on the real package
     gcases = os.path.join(ctx.work, "gcases.ndjson")
-    total, used = sample_lines(cases, gcases, 6000 if q else 0, ctx.seed)
+    total, used = sample_lines(cases, gcases, 4500 if q else 0, ctx.seed)
     ctx.cov["legs"]["emit-cases"]["replayed"] = used
     traces = []
     tr = os.path.join(ctx.work, "trace_g.ndjson")
@@ -101,7 +101,7 @@ def run_pmm(ctx, prop):
         traces.append(("G-hist", tr2))
     # ---- leg T: random maps and histories at real scale
     tr3 = os.path.join(ctx.work, "trace_t.ndjson")
-    n = (250 if q else 5000) if boot else (150 if q else 3000)
+    n = (250 if q else 5000) if boot else (100 if q else 3000)
     rc, out, _ = ctx.gotest("kernel", "mm/pmm", HARNESS, "TestVerifPmmRandom",
                             env={"TRACE_OUT": tr3, "NTRACES": n, "VERIF_PMM_MODE": mode}, timeout=400)
     if rc != 0:
